@@ -277,11 +277,35 @@ pub fn run(tier: Tier) -> i32 {
             }
         }
     });
+    // long integer parts: 1..=24 spoken zeros in front of a 1-, 2-, 11- and 12-digit integer, then a fraction (the
+    // integer part then exceeds 15, 17 and 20 digits: beyond f64, u64 precision)
+    for l in langs::ALL {
+        let lang = l.facade();
+        for n in [7u64, 12, 12_000_000_000, 999_999_999_999] {
+            let int_text = spell::spell(l, n, Var::default());
+            if l == L::De && int_text.contains("eine ") {
+                continue;
+            }
+            for k in 1..=24usize {
+                for d in ["5", "25", "05"] {
+                    acc.states += 1;
+                    acc.traces += 1;
+                    let zeros = vec![l.zero(); k].join(" ");
+                    let s = format!("xyzzy {zeros} {int_text} {} {} plugh", l.sep(), spell_fraction(l, d));
+                    let exp = format!("xyzzy {}{n}{}{d} plugh", "0".repeat(k), l.mark());
+                    let got = guard(|| replace_numbers_in_text(&s, &lang, 0.0)).unwrap_or_else(|p| p);
+                    if got != exp {
+                        ctx.report(&mut acc, Violation { lang: l.code().into(), entry: "replace_text".into(), input: s, threshold: Some(0.0), clause: "rewrite(zeros int sep frac) = zeros int mark frac, every digit and leading zero kept (long integer part)".into(), expected: exp, observed: got });
+                    }
+                }
+            }
+        }
+    }
     acc.nontrivial = acc.states;
     let cov = json!({
         "exhaustive": true,
         "rule": "every (language, integer part from I, fraction digit string from D) rendered by the reference spellers (digit by digit in en/de, zeros + number otherwise), rewritten at threshold 0 in up to 3 frames; occurrence value checked at threshold 1000; plus negative cases per integer",
-        "bounds": {"integer_sweep": format!("{} further integers below 1000 x fractions 0, 5, 05, 10, 25, 99", ints2.len()), "integers": ints.len(), "fractions": fracs.len(), "fraction_lengths": format!("all digit strings of length <= {}; plus structured lengths 5-6 (zeros in front of ~125 representative numbers) and 36 fractions of 7-14 digits (scale words inside the fraction); en/de: dictated fractions of every length 13..64", 4)},
+        "bounds": {"long_integer_parts": "1..=24 spoken zeros x integers 7, 12, 12e9, 999 999 999 999 x fractions 5, 25, 05", "integer_sweep": format!("{} further integers below 1000 x fractions 0, 5, 05, 10, 25, 99", ints2.len()), "integers": ints.len(), "fractions": fracs.len(), "fraction_lengths": format!("all digit strings of length <= {}; plus structured lengths 5-6 (zeros in front of ~125 representative numbers) and 36 fractions of 7-14 digits (scale words inside the fraction); en/de: dictated fractions of every length 13..64", 4)},
     });
     ctx.finish(acc, cov, vec![
         "integer parts are a representative set (quick) or all n < 1000 plus the 16^3 group product (thorough), not all n < 10^9".into(),
